@@ -190,6 +190,9 @@ func ctlScenario(p map[string]any) *Scenario {
 			}
 			for _, cl := range calls {
 				if cl == "Close" {
+					out = append(out, Violation{Property: "C06",
+						Signature: fmt.Sprintf("Close never returned (hist=%s cons=%s): Events and Errors are never closed", hist, cons),
+						Detail:    fmt.Sprintf("blocked threads: %v", who)})
 					out = append(out, Violation{Property: "C13",
 						Signature: fmt.Sprintf("Close never returned (hist=%s cons=%s): descriptor, kernel watches and reader goroutine are never released", hist, cons),
 						Detail:    fmt.Sprintf("blocked threads: %v; descriptors still open: %v", who, e.LeftOpen)})
